@@ -1,0 +1,17 @@
+//go:build verif
+
+// Verification hook for property C07 (add-only): the names of the registered transformations.
+
+package transformations
+
+import "sort"
+
+// VerifC07TransformationNames returns every key of the transformation registry.
+func VerifC07TransformationNames() []string {
+	names := make([]string, 0, len(transformations))
+	for k := range transformations {
+		names = append(names, k)
+	}
+	sort.Strings(names)
+	return names
+}
